@@ -33,6 +33,16 @@ VERSION = "x_wiring.py/1"
 GEN_FILES = ("WiringSrc.v",)
 M_CUBEPART = "cr/cube/cubepart.py"
 CLASSES = ("CubePartition", "_Slice", "_Strand", "_Nub")
+# the measure COLLECTIONS (which measure class a measure name constructs, with which arguments, and
+# which cube-measure objects exist): (file, class, name used in the generated identifiers)
+COLLECTIONS = (
+    ("cr/cube/matrix/measure.py", "SecondOrderMeasures", "SecondOrderMeasures"),
+    ("cr/cube/matrix/measure.py", "_BaseSecondOrderMeasure", "BaseSecondOrderMeasure"),
+    ("cr/cube/matrix/cubemeasure.py", "CubeMeasures", "MatrixCubeMeasures"),
+    ("cr/cube/stripe/measure.py", "StripeMeasures", "StripeMeasures"),
+    ("cr/cube/stripe/measure.py", "_BaseSecondOrderMeasure", "StripeBaseSecondOrderMeasure"),
+    ("cr/cube/stripe/cubemeasure.py", "CubeMeasures", "StripeCubeMeasures"),
+)
 
 Unavailable = T.Unavailable
 _un = T._un
@@ -343,53 +353,62 @@ def read_member(fn):
     return term
 
 
-def generate(text, report):
-    tree = ast.parse(text)
+def members(repo_src):
+    """[(display class name, identifier class name, FunctionDef)] of every member read, in file order;
+    raises OSError / SyntaxError when a file cannot be read"""
+    out = []
+    texts = {}
+    plan = [(M_CUBEPART, c, c.lstrip("_")) for c in CLASSES] + list(COLLECTIONS)
+    for rel, cname, iname in plan:
+        if rel not in texts:
+            with open(os.path.join(repo_src, rel), encoding="utf-8") as f:
+                texts[rel] = (f.read(), None)
+            texts[rel] = (texts[rel][0], ast.parse(texts[rel][0]))
+        found = False
+        for node in texts[rel][1].body:
+            if isinstance(node, ast.ClassDef) and node.name == cname:
+                found = True
+                for fn in node.body:
+                    if isinstance(fn, ast.FunctionDef) and not (fn.name.startswith("__") and fn.name.endswith("__")):
+                        out.append((cname if rel == M_CUBEPART else iname, iname, fn))
+        if not found:
+            raise OSError("class %s not found in %s" % (cname, rel))
+    return out, dict((k, v[0]) for k, v in texts.items())
+
+
+def generate_all(repo_src, report):
+    ms, texts = members(repo_src)
+    for rel, text in texts.items():
+        report["files"]["src/" + rel] = T._sha(text)
     L = [
-        "(* GENERATED by harness/translate/x_wiring.py (%s) from src/%s - do not edit. *)" % (VERSION, M_CUBEPART),
+        "(* GENERATED by harness/translate/x_wiring.py (%s) from src/%s and the measure collections of" % (VERSION, M_CUBEPART),
+        "   matrix/measure.py, matrix/cubemeasure.py, stripe/measure.py, stripe/cubemeasure.py - do not edit. *)",
         "From Coq Require Import List ZArith String.",
         "From CC Require Import Base.WiringExp.",
         "Import ListNotations.",
         "Local Open Scope string_scope.",
         "",
     ]
-    names = []
-    for node in tree.body:
-        if not (isinstance(node, ast.ClassDef) and node.name in CLASSES):
-            continue
-        L.append("(* ---- class %s ---- *)" % node.name)
-        for fn in node.body:
-            if not isinstance(fn, ast.FunctionDef):
-                continue
-            if fn.name.startswith("__") and fn.name.endswith("__"):
-                continue
-            idn = ident(node.name, fn.name)
-            what = "%s.%s" % (node.name, fn.name)
-            try:
-                term = "Some (%s)" % p_w(read_member(fn))
-                report["methods_translated"].append("wiring:" + what)
-            except Unavailable as ex:
-                term = "None"
-                # not in report["unavailable"] (that list prints a NOTE on every check): whether a
-                # member carries an obligation is decided by core.unavailable_obligations, which
-                # finds the `None` definition below in the property's dependency cone
-                report.setdefault("wiring_unread", []).append({"method": "wiring:" + what, "reason": str(ex)})
-            L.append("Definition %s : option wexp := %s." % (idn, term))
-            names.append(idn)
-    found = set(n.name for n in tree.body if isinstance(n, ast.ClassDef))
-    for c in CLASSES:
-        if c not in found:
-            report["errors"].append("x_wiring: class %s not found in cubepart.py" % c)
+    last = None
+    for dname, iname, fn in ms:
+        if dname != last:
+            L.append("(* ---- class %s ---- *)" % dname)
+            last = dname
+        idn = "wsrc_%s_%s" % (iname, fn.name)
+        what = "%s.%s" % (dname, fn.name)
+        try:
+            term = "Some (%s)" % p_w(read_member(fn))
+            report["methods_translated"].append("wiring:" + what)
+        except Unavailable as ex:
+            term = "None"
+            report.setdefault("wiring_unread", []).append({"method": "wiring:" + what, "reason": str(ex)})
+        L.append("Definition %s : option wexp := %s." % (idn, term))
     L.append("")
-    return "\n".join(L) + "\n", names
+    return "\n".join(L) + "\n"
 
 
 def regenerate(repo_src, gen_dir, report):
-    p = os.path.join(repo_src, M_CUBEPART)
-    with open(p, encoding="utf-8") as f:
-        text = f.read()
-    report["files"]["src/" + M_CUBEPART] = T._sha(text)
-    out, _ = generate(text, report)
+    out = generate_all(repo_src, report)
     changed = T._write_if_changed(os.path.join(gen_dir, "WiringSrc.v"), out)
     report["gen_files"]["Gen/WiringSrc.v"] = {"sha256": T._sha(out), "rewritten": changed}
     report["wiring_version"] = VERSION
